@@ -1,6 +1,7 @@
 """C12 Interfaces have a total, hash-consistent, process-independent order."""
 import hashlib
 import itertools
+import sys
 
 from hypothesis import strategies as st
 
@@ -70,6 +71,9 @@ def _curated():
             ops.append(['I', n, m, 0])
     for n, m in (('I', 'm'), ('IA', ''), ('', ''), ('Ié', 'é')):
         ops.append(['I', n, m, 1])     # equal-key twins
+    for n in ('I', 'IA', 'Ia', 'Ié'):
+        for m in ('', 'm', 'ma'):
+            ops.append(['I', n, m, 2])  # the same keys with interned strings
     for cn, cm, v in (('C', 'm', 0), ('C', 'm', 1), ('D', 'm', 0),
                       ('C', 'ma', 0), ('I', '', 0)):
         ops.append(['S', cn, cm, v])
@@ -112,7 +116,7 @@ def sort_strategy(draw):
         md = draw(st.one_of(_small, _name))
         if kind == 'S' and not nm.isidentifier():
             nm = 'C' + str(len(nm))
-        ops.append([kind, nm, md, draw(st.integers(0, 1))])
+        ops.append([kind, nm, md, draw(st.integers(0, 3))])
     if draw(st.booleans()):
         ops.append(['N'])
     # duplicates of some element (same object twice / equal-key twin)
@@ -120,7 +124,7 @@ def sort_strategy(draw):
         k = draw(st.integers(0, n - 1))
         twin = list(ops[k])
         if draw(st.booleans()) and twin[0] != 'N':
-            twin[3] = 1 - twin[3]
+            twin[3] = twin[3] ^ draw(st.sampled_from([1, 2, 3]))
         ops.append(twin)
     return {'t': 'sort', 'ops': ops}
 
@@ -146,6 +150,12 @@ class _Builder:
             # rebuild the strings so that equal names are distinct objects
             name = ''.join(list(op[1]))
             mod = ''.join(list(op[2]))
+            if len(op) > 3 and op[3] & 2:
+                # interned, as names coming from a class statement are;
+                # the others stay run-time strings (equal value, other
+                # object)
+                name = sys.intern(name)
+                mod = sys.intern(mod)
             ob = InterfaceClass(name, (Interface,), {}, __module__=mod)
         elif op[0] == 'S':
             cls = type(op[1], (), {'__module__': op[2]})
